@@ -95,8 +95,8 @@ CLAIMS = {
     ),
     "C07": dict(
         level="exploration",
-        technique="model-based stateful property testing of command delivery through the real manager (reference that applies the last command of each kind once at the start of the next callback: volume paths, token probes built on kira::command, seek jumps, decoder delivery log through hook H2, clock and tweener models) plus randomised real-thread races on the command primitive and on handles with monotone self-checking payloads",
-        text="Six generated scenario families: volume setters with tweens on four resources of one signal path compared frame by frame with the reference; probe Sound / Effect / Modulator objects that read a token reader once per on_start_processing (reads must be exactly the last token of each burst, once, in the following callback, including tokens written before the probe is added or before its first callback); seek bursts on a static sound (exactly one audible jump, in the next callback, by the last command) and seek / loop-region bursts on a streaming sound whose decoder gets 0..130 steps per gap (delivered indices must equal a reference transport that applies the last command at the decoder's next step); clock start / pause / stop / set_speed and tweener set() bursts against reference models; a writer thread racing a reader on one CommandWriter / CommandReader pair (untorn, strictly newer, last write read); a gameplay thread playing a sound and raising volumes while callbacks run (output never decreases, ends at the last value). Search with shrinking.",
+        technique="model-based stateful and metamorphic property testing of command delivery through the real manager (setter-vs-built steady-state relation for every setter; reference that applies the last command of each kind once at the start of the next callback: volume paths, token probes built on kira::command, seek jumps, decoder delivery log through hook H2, clock and tweener models) plus randomised real-thread races on the command primitive and on handles with monotone self-checking payloads",
+        text="Seven generated scenario families: a metamorphic relation over 43 setters of every handle type (scene built with A, setter called with B alone or as last of a burst, before the first or a later callback, instantly or tweened, must reach the steady state of a scene built with B, and A and B must be told apart by the same measure); volume setters with tweens on four resources of one signal path compared frame by frame with the reference; probe Sound / Effect / Modulator objects that read a token reader once per on_start_processing (reads must be exactly the last token of each burst, once, in the following callback, including tokens written before the probe is added or before its first callback); seek bursts on a static sound (exactly one audible jump, in the next callback, by the last command) and seek / loop-region bursts on a streaming sound whose decoder gets 0..130 steps per gap (delivered indices must equal a reference transport that applies the last command at the decoder's next step); clock start / pause / stop / set_speed and tweener set() bursts against reference models; a writer thread racing a reader on one CommandWriter / CommandReader pair (untorn, strictly newer, last write read); a gameplay thread playing a sound and raising volumes while callbacks run (output never decreases, ends at the last value). Search with shrinking.",
         note="No yield-point hook (H3) was added: the triple buffer is an external crate, so whole-operation orders are exactly the generated histories, and orders inside a write/read are only reached by the two real-thread families, whose schedule belongs to the operating system (a torn or stale read there is detected when it happens, but cannot be forced).",
         design="5/C07",
     ),
